@@ -472,6 +472,19 @@ func (s *Spec) Normalize() *Spec {
 			var kv []int64
 			var ku []string
 			anyUnit := false
+			if len(us) != 0 && len(us) != len(vs) {
+				// units not parallel to the values: not a valid profile; keep
+				// it visible instead of guessing an alignment
+				if num == nil {
+					num = map[string][]int64{}
+				}
+				if unit == nil {
+					unit = map[string][]string{}
+				}
+				num[k] = cpI(vs)
+				unit[k] = append(cpS(us), "<length-mismatch>")
+				continue
+			}
 			for j, v := range vs {
 				u := ""
 				if j < len(us) {
